@@ -430,12 +430,42 @@ class XnDispatch(Lemma):
         return (abs(got - want) > 1e-8, {"model": "hem", "a": a, "b": b, "n": n, "native": float(got), "quadrature": want})
 
 
+def incomplete_gamma_normal_form(expr):
+    """rewrite every uppergamma(s, x) of the expression through the one with the SMALLEST first argument among those that
+    share x and differ from it by an integer, with the recurrence  Gamma(s + 1, x) = s Gamma(s, x) + x^s e^(-x)
+    (integration by parts; a textbook identity, listed with assumption A4)"""
+    expr = sp.sympify(expr)
+    ugs = list(expr.atoms(sp.uppergamma))
+    groups = {}
+    for u in ugs:
+        groups.setdefault(u.args[1], []).append(u.args[0])
+    rep = {}
+    for x, ss in groups.items():
+        # choose the base: an s such that every other differs from it by a non-negative integer
+        base = None
+        for cand in ss:
+            ds = [sp.simplify(s_ - cand) for s_ in ss]
+            if all(d.is_integer and d >= 0 for d in ds):
+                base = cand
+                break
+        if base is None:
+            continue
+        for s_ in ss:
+            k = int(sp.simplify(s_ - base))
+            val = sp.uppergamma(base, x)
+            for j in range(k):
+                val = (base + j) * val + x ** (base + j) * sp.exp(-x)
+            rep[sp.uppergamma(s_, x)] = val
+    return expr.xreplace(rep)
+
+
 class CGMYAnalytic(Lemma):
     """CGMY closed forms in analytic mode (real integrate / integrate_against_x / integrate_against_xx / density bodies run over
     symbolic expressions; incomplete-gamma calculus by sympy), activity regimes 0<y<1 and 1<y<2:
       finite intervals on one side of zero: d/db I(a, b) = b^n nu(b), d/da I(a, b) = -a^n nu(a), I(a, a) = 0  (n = 0, 1);
-      infinite end: I(a, oo) - I(b, oo) = I(a, b) and d/da I(a, oo) = -a^n nu(a) (the base value at infinity itself -- the
-      incomplete gamma function vanishing there -- is left to the quadrature battery);
+      infinite end: I(a, oo) - I(b, oo) = I(a, b), and I(a, oo) equals the incomplete-gamma integral of x^n nu over (a, oo)
+      (Gamma rule int_a^oo z^s e^(-bz) dz = Gamma(s+1, ba) b^(-s-1) applied to the code's own density, the closed forms brought
+      to one incomplete gamma function by the recurrence Gamma(s+1, x) = s Gamma(s, x) + x^s e^(-x));
       second moment over a straddling interval [-A, b]: derivative in each end point and value 0 for the empty interval,
       also for the untempered fall-backs g = 0 and m = 0."""
     prop = "C09"
@@ -479,6 +509,10 @@ class CGMYAnalytic(Lemma):
             inf_a = to_sp(vc.method(nu, meth, SpVal(a), np.inf)) if sgn > 0 else to_sp(vc.method(nu, meth, -np.inf, SpVal(b)))
             inf_b = to_sp(vc.method(nu, meth, SpVal(b), np.inf)) if sgn > 0 else to_sp(vc.method(nu, meth, -np.inf, SpVal(a)))
             vc.check_zero(nm + "::infinite-end:additive-with-the-finite-interval", lambda: zero_form(inf_a - inf_b - val), samp)
+            from contracts.c10 import half_line_integral
+            z = S("z", positive=True)
+            tail = half_line_integral(z ** n * dens(sgn * z), z, lo=A) * (sgn ** n)
+            vc.check_zero(nm + "::infinite-end:is-the-incomplete-gamma-integral-of-x^n-nu", lambda: zero_form(incomplete_gamma_normal_form(inf_a - tail)), samp)
         else:
             a, b = -A, B
             val = to_sp(vc.method(nu, meth, SpVal(a), SpVal(b)))
@@ -522,6 +556,10 @@ class CGMYAnalytic(Lemma):
             inf_a = I(a, np.inf) if sgn > 0 else I(-np.inf, b)
             inf_b = I(b, np.inf) if sgn > 0 else I(-np.inf, a)
             vc.check_zero(nm + "::infinite-end:additive-with-the-finite-interval", lambda: zero_form(inf_a - inf_b - val), samp)
+            from contracts.c10 import half_line_integral
+            z = S("z", positive=True)
+            tail = half_line_integral(dens(sgn * z), z, lo=A)
+            vc.check_zero(nm + "::infinite-end:is-the-incomplete-gamma-integral-of-x^n-nu", lambda: zero_form(incomplete_gamma_normal_form(inf_a - tail)), samp)
             return
         t = S("t", positive=True)
         right, left = I(0.0, B), I(-A, 0.0)
@@ -538,6 +576,10 @@ class CGMYAnalytic(Lemma):
         vc.check_zero(nm + "::right-of-zero:vanishes-with-the-interval", vanishes(right, B), samp)
         vc.check_zero(nm + "::left-of-zero:vanishes-with-the-interval", vanishes(left, A), samp)
         rinf, linf = I(0.0, np.inf), I(-np.inf, 0.0)
+        from contracts.c10 import half_line_integral
+        z = S("z", positive=True)
+        vc.check_zero(nm + "::right-half-line:is-the-gamma-integral-of-the-density", lambda: zero_form(rinf - half_line_integral(dens(z), z)), samp)
+        vc.check_zero(nm + "::left-half-line:is-the-gamma-integral-of-the-density", lambda: zero_form(linf - half_line_integral(dens(-z), z)), samp)
         vc.check_zero(nm + "::right-half-line:additive", lambda: zero_form(rinf - I(B, np.inf) - right), samp)
         vc.check_zero(nm + "::left-half-line:additive", lambda: zero_form(linf - I(-np.inf, -A) - left), samp)
         vc.check_zero(nm + "::straddling:sum-of-both-sides", lambda: zero_form(I(-A, B) - left - right), samp)
@@ -610,7 +652,7 @@ def LATE_UNITS():
 
 
 ASSUMPTIONS = ["A1: floats are mathematical reals", "A6: fundamental theorem of calculus (an antiderivative with the right base value is the integral)",
-               "A4: sympy's differentiation / limits / simplification are trusted"]
+               "A4: sympy's differentiation / limits / simplification are trusted; Gamma rule for int z^s e^(-bz) dz over a half line and the incomplete-gamma recurrence Gamma(s+1, x) = s Gamma(s, x) + x^s e^(-x)"]
 TRUSTED_BASE = ["sympy 1.14 (diff, limit, simplify)", "z3 5.1 for path feasibility", "pyvc interpreter + library models, z3->sympy translation"]
 
 
